@@ -2,10 +2,10 @@ package vc
 
 import (
 	"fmt"
-	"strings"
 	"go/ast"
 	"go/token"
 	"go/types"
+	"strings"
 )
 
 // Effects is a syntactic over-approximation of the heaps a piece of code may
